@@ -605,33 +605,51 @@ theorem firstObsAt_snd (ix : List Int) (c : Col) (t : Int) : (firstObsAt ix c t)
 /-- number of requested labels strictly between `a` and `b` -/
 def between (idx : List Int) (a b : Int) : Nat := idx.countP fun u => decide (a < u ∧ u < b)
 
-/-- ffill with a limit, one column: the requested label `t` gets the column's last non-NaN observation `(s, v)` at or before
-`t` iff `s = t` or fewer than `limit` requested labels lie strictly between `s` and `t` -/
+/-- the cell of a requested label `t` under ffill with a limit, from the reference: the last non-NaN observation `(s, v)` at or
+before `t` iff `s = t` or fewer than `limit` requested labels lie strictly between `s` and `t` -/
+def ffillLim (lim : Option Nat) (idx : List Int) (ix : List Int) (c : Col) (t : Int) : Option Int :=
+  match lastObsAt ix c t with
+  | Option.none => Option.none
+  | some (s, v) => if s = t ∨ within lim (between idx s t) = true then some v else Option.none
+
+/-- the mirror image for bfill (the count runs over the requested labels strictly between `t` and `s`) -/
+def bfillLim (lim : Option Nat) (idx : List Int) (ix : List Int) (c : Col) (t : Int) : Option Int :=
+  match firstObsAt ix c t with
+  | Option.none => Option.none
+  | some (s, v) => if s = t ∨ within lim (between idx t s) = true then some v else Option.none
+
+theorem ffillLim_none {lim idx ix c t} (h : lastObsAt ix c t = Option.none) : ffillLim lim idx ix c t = Option.none := by
+  simp [ffillLim, h]
+theorem ffillLim_some {lim idx ix c t s v} (h : lastObsAt ix c t = some (s, v)) :
+    ffillLim lim idx ix c t = if s = t ∨ within lim (between idx s t) = true then some v else Option.none := by
+  simp [ffillLim, h]
+theorem bfillLim_none {lim idx ix c t} (h : firstObsAt ix c t = Option.none) : bfillLim lim idx ix c t = Option.none := by
+  simp [bfillLim, h]
+theorem bfillLim_some {lim idx ix c t s v} (h : firstObsAt ix c t = some (s, v)) :
+    bfillLim lim idx ix c t = if s = t ∨ within lim (between idx t s) = true then some v else Option.none := by
+  simp [bfillLim, h]
+
+/-- ffill with a limit, one column -/
 theorem asofColLim_ffill (lim : Option Nat) (fidx : List Int) (c : Col) (idx : List Int) (hf : SortedL fidx) (hi : SortedL idx) :
-    asofColLim .ffill lim fidx c idx = idx.map fun t =>
-      match lastObsAt fidx c t with
-      | Option.none => Option.none
-      | some (s, v) => if s = t ∨ within lim (between idx s t) = true then some v else Option.none := by
+    asofColLim .ffill lim fidx c idx = idx.map (ffillLim lim idx fidx c) := by
   simp only [asofColLim]
   rw [limAux_eq_map .ffill lim _ (asofOK_ffill _ (obs_labels_sorted fidx c hf)) idx (by simpa [before] using hi)]
   apply List.map_congr_left
   intro t _
   simp only [limCellAll, asofObs_ffill fidx c t hf, between, before]
-  cases lastObsAt fidx c t with
-  | none => rfl
+  cases ho : lastObsAt fidx c t with
+  | none => rw [ffillLim_none ho]
   | some sv =>
     obtain ⟨s, v⟩ := sv
+    rw [ffillLim_some ho]
     have : (idx.countP fun u => decide (s < u) && decide (u < t)) = idx.countP fun u => decide (s < u ∧ u < t) := by
       apply List.countP_congr; intro u _; simp
-    simp only [this]
+    simp only [this, between]
     congr
 
-/-- bfill with a limit: the mirror image (the count runs over the requested labels strictly between `t` and `s`) -/
+/-- bfill with a limit, one column -/
 theorem asofColLim_bfill (lim : Option Nat) (fidx : List Int) (c : Col) (idx : List Int) (hi : SortedL idx) :
-    asofColLim .bfill lim fidx c idx = idx.map fun t =>
-      match firstObsAt fidx c t with
-      | Option.none => Option.none
-      | some (s, v) => if s = t ∨ within lim (between idx t s) = true then some v else Option.none := by
+    asofColLim .bfill lim fidx c idx = idx.map (bfillLim lim idx fidx c) := by
   simp only [asofColLim]
   have hr : idx.reverse.Pairwise fun a b => before .bfill a b = true := by
     rw [List.pairwise_reverse]; simpa [before] using hi
@@ -639,12 +657,14 @@ theorem asofColLim_bfill (lim : Option Nat) (fidx : List Int) (c : Col) (idx : L
   apply List.map_congr_left
   intro t _
   simp only [limCellAll, asofObs_bfill fidx c t, between, before, List.countP_reverse]
-  cases firstObsAt fidx c t with
-  | none => rfl
+  cases ho : firstObsAt fidx c t with
+  | none => rw [bfillLim_none ho]
   | some sv =>
     obtain ⟨s, v⟩ := sv
+    rw [bfillLim_some ho]
     have : (idx.countP fun u => decide (u < s) && decide (t < u)) = idx.countP fun u => decide (t < u ∧ u < s) := by
       apply List.countP_congr; intro u _; simp [and_comm]
-    simp [this]
+    simp only [this, between]
+    congr
 
 end Pyg.Align
